@@ -116,6 +116,16 @@ CLAIMED = {
          'determinism of the real translation is sampled, not proved; GIL atomicity of attribute assignment is assumed. One genuine defect found '
          'by this check and fixed (af4502b: stale entry cell across workbooks).',
     technique='Coq proof (state-machine invariant; schedule-indexed invariant for the two-thread system) + trace correspondence', ref='6/C09'),
+ 'C20': dict(
+    text='Translator-based proof: on every run both runtime copies (the template of context.py rendered through str.format, and '
+         'AbstractExcelInPython) are re-parsed with ast, stripped of annotations/docstrings and regenerated as generic syntax trees '
+         '(Gen/Helpers.v); Coq proves by kernel computation that the helper name sets coincide and that every helper has identical code in '
+         'both copies, and lifts this (soundness of the tree comparison, proved by nested induction) to: for ANY deterministic semantics of '
+         'Python every helper returns the same result for every argument. When the obligation breaks, the helpers whose code differs are '
+         'executed on both classes over argument pools to exhibit a concrete differing input; the differential run is also done on every check.',
+    note='Decides behavioural equality through syntactic equality: a harmless rewrite of one copy breaks the obligation (then the differential '
+         'search decides whether an input is reported). __init__ is excluded. Trusted: tools/gen_helpers.py.',
+    technique='regenerated model (Python ast -> Coq terms) + Coq kernel computation + lifting theorem; differential execution as search', ref='6/C20'),
 }
 
 ids = [json.loads(l)['id'] for l in open('/verif/properties.jsonl')]
